@@ -47,7 +47,7 @@ def NodeOK : Node → Prop
   | .paramDecl name t vararg _ => IdentOK name ∧ TyOK (paramPrinted t vararg)
   | .funcDecl .. => False
   | .lambda .. => False
-  | .funcRef .. => False
+  | .funcRef func recv _ => BrFree func ∧ (match recv with | some r => NodeOK r | none => True)
   | .bottom t => TyOKO t
   | .intC lit _ => BrFree lit
   | .realC lit _ => BrFree lit
@@ -561,6 +561,35 @@ theorem ok_cond (e : Env) {v : St → Node → St × Text} (hv : VOK v) (st : St
     all_goals st_ok
 
 
+theorem ok_funcRef (e : Env) {v : St → Node → St × Text} (hv : VOK v) (st : St) (hst : StOK st)
+    (func : String) (recv : Option Node) (sig : Option Ty)
+    (hn : BrFree func ∧ (match recv with | some r => NodeOK r | none => True)) :
+    StOK (visitNode e v st (.funcRef func recv sig)).1 ∧ Neutral (visitNode e v st (.funcRef func recv sig)).2 := by
+  obtain ⟨hf, hr⟩ := hn
+  have hro : NodesOK (optList recv) := by
+    cases recv <;> simp only [optList, NodesOK] <;> simp_all
+  have h1 := hf.neutral
+  simp only [visitNode]
+  have h := visitL_ok hv (optList recv) { st with ident := 0 } (hst.with_eq rfl rfl) hro
+  generalize visitL v { st with ident := 0 } (optList recv) = p at h
+  obtain ⟨s1, rs⟩ := p
+  simp only at h ⊢
+  refine ⟨h.1.with_eq rfl rfl, ?_⟩
+  cases rs with
+  | nil =>
+    simp only
+    (repeat' split) <;>
+      exact neutral_append (neutral_append (neutral_append (neutral_sp _) (BrFree.neutral (by decide))) h1) (BrFree.neutral (brFree_semi _))
+  | cons r tl =>
+    simp only
+    have h2 := h.2 r (by simp)
+    have h3 : Neutral (if r != "" then r ++ "::" else r) := by
+      split
+      · exact neutral_append h2 (BrFree.neutral (by decide))
+      · exact h2
+    generalize (if r != "" then r ++ "::" else r) = rx at h3
+    fin_neutral [h1.eq, h3.eq]
+
 /-! ### assembly -/
 
 theorem visitNode_ok (e : Env) {v : St → Node → St × Text} (hv : VOK v) (st : St) (hst : StOK st) (n : Node)
@@ -579,7 +608,7 @@ theorem visitNode_ok (e : Env) {v : St → Node → St × Text} (hv : VOK v) (st
   case paramDecl => exact ok_decl_leaves e hv st hst _ trivial hn
   case funcDecl => simp only [NodeOK] at hn
   case lambda => simp only [NodeOK] at hn
-  case funcRef => simp only [NodeOK] at hn
+  case funcRef f r sg => exact np rfl (ok_funcRef e hv st hst f r sg (by cases r <;> simpa only [NodeOK] using hn))
   case bottom => exact np rfl (ok_bottom e hv st hst _ hn)
   case intC => exact np rfl (ok_consts e hv st hst _ trivial hn)
   case realC => exact np rfl (ok_consts e hv st hst _ trivial hn)
